@@ -27,24 +27,24 @@ Proof. exact comprehension_correct. Qed.
 Theorem C02_comprehension_list_correct : forall err_text self en elt zero ps E tr vs tr',
   Forall wf_phrase ps -> lower_comprehension (CList elt) zero ps = Some E ->
   spec_comprehension (CList elt) zero ps en tr = Some (vs, tr') -> ev err_text self E en tr = (RVal vs, en, tr').
-Proof. intros et self en elt. exact (comprehension_correct et self en (CList elt)). Qed.
+Proof. exact comprehension_list_correct. Qed.
 Theorem C02_comprehension_map_correct : forall err_text self en ke ve zero ps E tr vs tr',
   Forall wf_phrase ps -> lower_comprehension (CMap ke ve) zero ps = Some E ->
   spec_comprehension (CMap ke ve) zero ps en tr = Some (vs, tr') -> ev err_text self E en tr = (RVal vs, en, tr').
-Proof. intros et self en ke ve. exact (comprehension_correct et self en (CMap ke ve)). Qed.
+Proof. exact comprehension_map_correct. Qed.
 Theorem C02_comprehension_select_correct : forall err_text self en elt two zero ps E tr vs tr',
   Forall wf_phrase ps -> lower_comprehension (CSelect elt two) zero ps = Some E ->
   spec_comprehension (CSelect elt two) zero ps en tr = Some (vs, tr') -> ev err_text self E en tr = (RVal vs, en, tr').
-Proof. intros et self en elt two. exact (comprehension_correct et self en (CSelect elt two)). Qed.
+Proof. exact comprehension_select_correct. Qed.
 Theorem C02_comprehension_exists_correct : forall err_text self en zero ps E tr vs tr',
   Forall wf_phrase ps -> lower_comprehension CExists zero ps = Some E ->
   spec_comprehension CExists zero ps en tr = Some (vs, tr') -> ev err_text self E en tr = (RVal vs, en, tr').
-Proof. intros et self en. exact (comprehension_correct et self en CExists). Qed.
+Proof. exact comprehension_exists_correct. Qed.
 
 (* the last for-phrase is the outermost loop, in the compiled code and in the documented meaning *)
 Theorem C02_last_phrase_outermost : forall ps p s F,
   nest (ps ++ [p]) s = wrap p (nest ps s) /\ spec_nest (ps ++ [p]) F = spec_wrap p (spec_nest ps F).
-Proof. intros. split; [apply nest_snoc|apply spec_nest_snoc]. Qed.
+Proof. exact last_phrase_outermost. Qed.
 
 (* for k, v <- x if c { body }: the compiled for-range with the filter inside implements
    "for each item in order: bind, test the filter, run the body" for any body that implements F
